@@ -328,6 +328,13 @@ def fixed_cases(tier):
         out.append({'kind': 'bytes', 'ext': 'yaml', 'b64': base64.b64encode(y).decode(), 'fmt': 'json', 'tools': True})
     for d in ({'$repeat': -1, 'a': 1}, {'$repeat': {'a': -1, 'b': 2}, 'x': 1}, {'l': [{'$repeat': -1, 'i': 1}]}, {'m': {'k': {'$repeat': -2, 'i': 1}}}, [{'$repeat': -1}, 1], {'$repeat': 0, 'a': 1}, [{'$repeat': 0}, 1], {'$repeat': 1, 'a': 1}, {'$repeat': {'a': 0}, 'b': 1}, {'$output': False, 'a': 1}, {'$merge:a': 1, 'a': 5}, {'$"{a}"': 1, 'a': 5}, {'$repeat': 2, '$repeat2': 1}, {'a': {'$repeat': 2, 'k': 1}}, {'$env:HOME': {'$repeat': 1}}, {'k': {'$repeat': 1, '$value': 2}}):
         out.append({'kind': 'struct', 'layers': [[d]], 'fmt': 'json', 'files': True, 'tools': True})
+    # embedded documents at the edges: empty, blank, several documents, a lone separator, syntax errors
+    for f in ('json', 'jsonl', 'yaml', 'yml', 'toml', 'json-pretty'):
+        for txt in ('', ' ', '\n', '---', '---\n---\n', '{}', '{} {}', '[', '"', 'a: 1\n---\nb: 2\n', 'null', '\x00'):
+            out.append({'kind': 'struct', 'layers': [[{'r': {'$decode': f, '$value': txt}, 'keep': 1}]], 'fmt': 'json', 'files': False, 'tools': False})
+    for enc in ('json', 'yaml', 'toml', 'base64', 'sha256', 'flags', 'values', 'flatten', 'join', 'tolist:=', 'prefix:x'):
+        for val in (None, [], {}, '', [[]], [None], {'a': None}, 0, False):
+            out.append({'kind': 'struct', 'layers': [[{'r': {'$encode': enc, '$value': val}, 'keep': 1}]], 'fmt': 'json', 'files': False, 'tools': False})
     return out
 
 
